@@ -308,7 +308,7 @@ package text
 //@ -- LeftTrim: the inner parser is called exactly once, right after the whitespace run, with the caller's
 //@ -- left-recursion context; when the run satisfies the mode the inner parser's result is returned as is
 //@ closure LeftTrim$1(ctx *parsley.Context, lrc data.IntMap, pos parsley.Pos) (n parsley.Node, cp data.IntSet, err parsley.Error)
-//@   captures (p parsley.Parser, wsMode WsMode)
+//@   captures (wsMode WsMode, p parsley.Parser)
 //@   requires p != nil
 //@   include  parsley.Parser.Parse
 //@   let tr = ctx.Reader().(*Reader)
@@ -318,3 +318,42 @@ package text
 //@   ensures  [accepted] err == nil && n != nil ==> same(n, callres[parsley.Node](1, 0)) && same(cp, callres[data.IntSet](1, 1))
 //@   ensures  [none-violated] wsMode == WsNone && callarg[parsley.Pos](1, 3) > pos && callres[parsley.Error](1, 2) == nil ==> n == nil && err != nil && err.Pos() == pos && parsley.IsWsErr(err)
 //@   ghost_return when err != nil && err.Pos() > parsley.GhostMaxFail :: parsley.GhostMaxFail = err.Pos()
+
+//@ -- ------------------------------------------------------------------ RightTrim / Trim
+//@ -- the callback RightTrim hands to ast.SetReaderPos: skip the whitespace run that starts at the node's end,
+//@ -- remember the mode's verdict on it in the captured variable wsErr
+//@ closure RightTrim$1$1(pos parsley.Pos) (np parsley.Pos)
+//@   captures (wsErr parsley.Error, tr *Reader, wsMode WsMode)
+//@   requires wfReader(tr) && parsley.GhostHi == parsley.Pos(tr.file.offset + tr.file.len) && int(parsley.GhostLo) >= tr.file.offset
+//@   requires parsley.GhostLo <= pos && pos <= parsley.GhostHi
+//@   ensures  [moved;C10] pos <= np && np <= parsley.GhostHi
+//@   ensures  [run;C10] (forall k int :: int(pos)-tr.file.offset <= k && k < int(np)-tr.file.offset ==> isWs(tr.file.data[k])) && (int(np)-tr.file.offset == tr.file.len || !isWs(tr.file.data[int(np)-tr.file.offset]))
+//@   ensures  [inv] wsErr == nil || (parsley.IsWsErr(wsErr) && parsley.GhostLo <= wsErr.Pos() && wsErr.Pos() <= parsley.GhostHi)
+//@   assigns  wsErr
+
+//@ -- RightTrim: the inner parser is called exactly once at pos with the caller's context; an error is moved past
+//@ -- the whitespace run that follows it; on success the end of every alternative is moved past the run that follows
+//@ -- it, or the mode's whitespace error is returned.
+//@ -- KNOWN FINDING (C07): the end positions are written into the nodes the inner parser returned -- nodes that may be
+//@ -- shared with the result cache and with other consumers (obligation frame/call#...:ast.SetReaderPos).
+//@ closure RightTrim$1(ctx *parsley.Context, lrc data.IntMap, pos parsley.Pos) (n parsley.Node, cp data.IntSet, err parsley.Error)
+//@   captures (wsMode WsMode, p parsley.Parser)
+//@   requires p != nil
+//@   include  parsley.Parser.Parse
+//@   ensures  [once;C01,C02] ncalls() == 1 && callarg[*parsley.Context](1, 1) == ctx && same(callarg[data.IntMap](1, 2), lrc) && callarg[parsley.Pos](1, 3) == pos
+//@   ensures  [cp] err == nil && n != nil ==> same(cp, callres[data.IntSet](1, 1))
+//@   ensures  [ws-error;C10] callres[parsley.Error](1, 2) == nil && callres[parsley.Node](1, 0) != nil && n == nil ==> err != nil && parsley.IsWsErr(err)
+//@   ghost_return when err != nil && err.Pos() > parsley.GhostMaxFail :: parsley.GhostMaxFail = err.Pos()
+
+//@ func LeftTrim(p parsley.Parser, wsMode WsMode) (r parser.Func)
+//@   requires p != nil
+//@   ensures  r != nil
+//@   assigns  nothing
+//@ func RightTrim(p parsley.Parser, wsMode WsMode) (r parser.Func)
+//@   requires p != nil
+//@   ensures  r != nil
+//@   assigns  nothing
+//@ func Trim(p parsley.Parser) (r parser.Func)
+//@   requires p != nil
+//@   ensures  r != nil
+//@   assigns  nothing
